@@ -8,6 +8,7 @@ FIXED = [
  ("KF-C01-3", "C01", "0150888", "C01.same_envlog", "o[side_effect()] = v evaluates the index twice, and before the value, once o is instrumented"),
  ("KF-C01-4", "C01", "85d6013", "C01.same_outcome", "a function that defines a class in its body fails with PteraNameError / NameError once instrumented"),
  ("KF-C01-5", "C01", "4d5f0fd", "C01.instrumentable", "a function with a nonlocal/global declaration cannot be instrumented: SyntaxError 'name used prior to nonlocal declaration'"),
+ ("KF-C01-6", "C01", "f7c1846", "C01.instrumentable", "a function containing a loop with a starred target (for a, *rest in ...) cannot be instrumented: NotImplementedError when a probe is activated or tooled() is applied"),
  ("KF-C02-1", "C02", "f50c678", "C02.activation", "a variable assigned only inside an except block cannot be probed: 'Cannot find a variable named ...'"),
  ("KF-C02-2", "C02", "f35605b", "C02.stream", "'import os.path' binds os but a probe on os receives no event"),
  ("KF-C02-3", "C02", "bc90bec", "C02.stream", "a probe on the target of 'with cm() as w' receives no event (and the target is missing as context)"),
@@ -24,6 +25,8 @@ FIXED = [
  ("KF-C17-3", "C17", "68ae349", "C17.completed_once", "the interpreter-exit hook stops at the first global probe whose completion raises; the remaining global probes are never completed"),
  ("KF-C04-1", "C04", "654daa2", "C04.substitution", "an Overlay.tweaking / rewriting override on a tooled function is silently dropped while a probe on another variable of that function is active"),
  ("KF-C04-2", "C04", "0292be5", "C04.stream", "a probe or override on an attribute store (f > o.n) never fires unless the whole function is tooled"),
+ ("KF-C04-3", "C04", "be94eb2", "C04.substitution", "tooled() / tooled.inplace() applied to a function that was probed earlier does nothing: an Overlay.tweaking override on it is silently never applied"),
+ ("KF-C16-5", "C16", "5910367", "C16.name_error_info", "PteraNameError.info() (annotation, provenance) raises TypeError once the probe that was active when the error was raised has ended, e.g. in a handler outside the with-block"),
  ("KF-C13-1", "C13", "447c057", "C13.receiver", "obj.meth > v also observes calls on a distinct instance that compares equal to obj"),
  ("KF-C13-3", "C13", "447c057", "C13.activation", "obj.meth > v fails with 'unhashable type' when obj defines __eq__ without __hash__"),
  ("KF-C14-1", "C14", "755b237", "C14.resolves", "after a probe on a method K.meth, the reference /module/meth of the top-level function meth resolves to the method"),
